@@ -94,7 +94,7 @@ CHECKS["C12"] = dict(level="proof", engine="pyvc",
     text="The exceptional post-condition of the real integrate() is proved at every raising program point (integrator call, buffer growth, each callback; Exception subclasses and KeyboardInterrupt; also from a pre-state that already "
          "failed): FailedIntegration with the original cause (KeyboardInterrupt as itself), status is that object, buffers trimmed, prefix untouched, recorded steps monotone and not beyond the target, dt != 0 -- the representation "
          "invariant integrate() requires, so resumption is C03. RungeKuttaIntegrator.__call__: a non-caught exception from step() escapes from the first attempt and every retry. reset(): C13's obligations.",
-    note="events/dense-output bookkeeping on failure are only in the bounded native fault-injection family (every position k of short runs); swallowed ValueError is a recorded known finding (F26); A1",
+    note="faults inside the event block: one terminal event with dense output kept, both directions, deductively; every position k of short runs (rhs, callback and event-function faults) in the bounded native fault-injection family; swallowed ValueError is a recorded known finding (F26); A1",
     technique="exceptional post-conditions at raising program points (crash-point enumeration over program points) discharged by z3",
     design_ref="DESIGN.md section 4 C12")
 CHECKS["C13"] = dict(level="proof", engine="pyvc",
@@ -107,7 +107,7 @@ CHECKS["C13"] = dict(level="proof", engine="pyvc",
 CHECKS["C20"] = dict(level="proof", engine="pyvc",
     text="DiffRHS.__call__ counts completed calls only; jac counts once and its finite-difference closures are counted; no `.rhs(...)` call bypasses the counted path anywhere in the package (AST); reset zeroes nfev; in integrate() "
          "every callback is invoked exactly once per iteration, in list order, after the new (t, y) row is recorded and visible, and the step handed to the integrator is the stored dt or the final clamp.",
-    note="terminal-event sub-steps (recursive integrate without callbacks) are covered with C09's event contract only natively; torch paths cut (A5)",
+    note="terminal-event sub-steps: the recursive integrate must be made without the caller's callbacks (pre-condition proved at the call site in the terminal-event configuration); torch paths cut (A5)",
     technique="ghost call logs in the symbolic execution of integrate + state-machine contracts of DiffRHS + package-wide AST frame scan",
     design_ref="DESIGN.md section 4 C20")
 CHECKS["C06"] = dict(level="proof", engine="pyvc",
